@@ -68,3 +68,193 @@ def probes(prog, res):
     p["probe_nested_graph_cycles"] = sum(1 for e in res.events if e["k"] == "cyc" and e["g"] > 0)
     p["probe_passive_marked_inputs"] = sum(1 for n in prog["nodes"] for a in n.get("args", []) if a.startswith("~"))
     return p
+
+
+# ---------------------------------------------------------------------------------------------- C01: order / once
+def wire_graphs(events):
+    """yield (path, graph dict) for the compiled root graph and every child graph template"""
+    for e in events:
+        if e["k"] == "wire":
+            stack = [("root", e["graph"])]
+            while stack:
+                path, g = stack.pop()
+                yield path, g
+                for i, n in enumerate(g["nodes"]):
+                    for j, c in enumerate(n.get("children", [])):
+                        stack.append(("%s/%d.%d" % (path, i, j), c))
+
+
+def check_edges(events):
+    n_edges = 0
+    for path, g in wire_graphs(events):
+        for (s, t, kind) in g["edges"]:
+            n_edges += 1
+            if not s < t:
+                return ("edge_order", "compiled edge %d -> %d in graph %s does not satisfy source < target" % (s, t, path)), n_edges
+    return None, n_edges
+
+
+def check_eval_order(events):
+    """engine-level: per graph instance and cycle, node indices strictly increase (hence at most once); a nested graph is
+    evaluated inside its parent node's evaluation bracket, at the parent's time."""
+    parent = {}      # g -> (pg, pi)
+    open_cyc = {}    # g -> [t, last index]
+    node_stack = []  # (g, i)
+    n_checked = 0
+    for e in events:
+        k = e["k"]
+        if k == "gstart":
+            parent[e["g"]] = (e["pg"], e["pi"])
+        elif k == "cyc":
+            g = e["g"]
+            if g in open_cyc:
+                return ("cycle_nesting", "graph %d evaluation began twice" % g), n_checked
+            open_cyc[g] = [e["t"], -1]
+            pg, pi = parent.get(g, (-1, -1))
+            if pg >= 0:
+                if not node_stack or node_stack[-1] != (pg, pi):
+                    return ("child_outside_parent_bracket", "child graph %d evaluated outside the evaluation of its parent node (%d,%d)" % (g, pg, pi)), n_checked
+                if pg in open_cyc and open_cyc[pg][0] != e["t"]:
+                    return ("child_time", "child graph %d evaluated at %d while its parent graph is at %d" % (g, e["t"], open_cyc[pg][0])), n_checked
+        elif k == "cycend":
+            open_cyc.pop(e["g"], None)
+        elif k == "ne":
+            g, i = e["g"], e["i"]
+            if g not in open_cyc:
+                return ("eval_outside_cycle", "node (%d,%d) evaluated outside a graph evaluation" % (g, i)), n_checked
+            n_checked += 1
+            if i <= open_cyc[g][1]:
+                return ("eval_order", "graph %d t=%d: node %d evaluated after node %d (index order / at most once)" % (g, open_cyc[g][0], i, open_cyc[g][1])), n_checked
+            open_cyc[g][1] = i
+            node_stack.append((g, i))
+        elif k == "nx":
+            if node_stack and node_stack[-1] == (e["g"], e["i"]):
+                node_stack.pop()
+    return None, n_checked
+
+
+def program_dependencies(prog):
+    """id -> set of ids of the user-code nodes it reads in the same cycle, through aliases, references, structural
+    collections and nested boundaries (the program's own relation; feedback readers do not depend on their producer)."""
+    nodes, binds = expand(prog)
+    by_name = {n["name"]: n for n in nodes}
+    alias = {}
+    for h, p in binds:
+        if by_name[h]["kind"] == "delayed":
+            alias[h] = p.lstrip("~")
+
+    def producers(name, seen=()):
+        name = name.lstrip("~")
+        if name in seen:
+            return set()
+        seen = seen + (name,)
+        if name in alias:
+            return producers(alias[name], seen)
+        n = by_name[name]
+        k = n["kind"]
+        if k == "alias":
+            return producers(n["args"][0], seen)
+        if k == "feedback":
+            return set()
+        if k == "ite":
+            out = {n["id"]} if n.get("id") else set()
+            for a in n["args"]:
+                out |= producers(a, seen)
+            return out
+        if n.get("id"):
+            return {n["id"]}
+        return set()
+
+    deps = {}
+    for n in nodes:
+        if n.get("id") and n["kind"] not in ("feedback", "delayed", "alias"):
+            d = set()
+            # the id of an ite statement names its condition helper (ToBool), which reads the condition only; readers of
+            # the ite port depend on that helper *and* on both targets (see producers())
+            for a in (n.get("args", [])[:1] if n["kind"] == "ite" else n.get("args", [])):
+                d |= producers(a)
+            d.discard(n["id"])
+            deps.setdefault(n["id"], set()).update(d)
+    for s in prog.get("sinks", []):
+        if s["kind"] in ("rec", "recu"):
+            deps.setdefault(s["id"], set()).update(producers(s["port"]))
+    return deps
+
+
+def check_user_order(prog, events):
+    """user-level: when N's code runs at t, every producer P it reads whose code also runs at t has already run; and no
+    user code runs twice in one cycle"""
+    deps = program_dependencies(prog)
+    seen_at = {}
+    n_pairs = 0
+    order = 0
+    pending = []
+    for e in events:
+        if e["k"] in ("ev", "rec"):
+            i, t = e["id"], e["t"]
+            if not i:
+                continue
+            order += 1
+            if (i, t) in seen_at:
+                return ("user_code_twice", "user code of id %d ran twice at t=%d" % (i, t)), n_pairs
+            seen_at[(i, t)] = order
+            pending.append((i, t, order))
+    for (i, t, o) in pending:
+        for p in deps.get(i, ()):
+            if (p, t) in seen_at:
+                n_pairs += 1
+                if seen_at[(p, t)] > o:
+                    return ("producer_after_consumer", "t=%d: id %d ran before its producer id %d" % (t, i, p)), n_pairs
+    return None, n_pairs
+
+
+# ---------------------------------------------------------------------------------------------- C02: wake-ups
+def requests_from_log(events):
+    """accepted wake-up requests as logged by the requesting nodes: (id, made_at, when)"""
+    out = []
+    rejected = 0
+    for e in events:
+        if e["k"] == "req":
+            ok = e["when"] >= e["t"] if e["in_start"] else e["when"] > e["t"]
+            if ok:
+                out.append((e["id"], e["t"], e["when"]))
+            else:
+                rejected += 1
+        elif e["k"] == "sop" and e["op"] in ("+", "@"):
+            when = e["t"] + e["arg"] if e["op"] == "+" else e["arg"]
+            ok = when >= e["t"] if e["in_start"] else when > e["t"]
+            if ok:
+                out.append((e["id"], e["t"], when))
+            else:
+                rejected += 1
+    return out, rejected
+
+
+def check_wakeups(prog, events):
+    start, end = prog["window"]
+    cycles = [e["t"] for e in events if e["k"] == "cyc" and e["g"] == 0]
+    for a, b in zip(cycles, cycles[1:]):
+        if not a < b:
+            return ("time_not_increasing", "cycle %d followed by %d" % (a, b)), {}
+    for t in cycles:
+        if t < start or t >= end:
+            return ("outside_window", "cycle at %d outside [%d,%d)" % (t, start, end)), {}
+    stopped = [e["t"] for e in events if e["k"] == "stopreq"]
+    horizon = stopped[0] if stopped else None
+    reqs, rejected = requests_from_log(events)
+    cyc = set(cycles)
+    evs = {(e["id"], e["t"]) for e in events if e["k"] == "ev"}
+    honoured = 0
+    for (i, made, when) in reqs:
+        if when < start or when >= end:
+            continue
+        if horizon is not None and when > horizon:
+            continue
+        if when not in cyc:
+            return ("wakeup_dropped", "id %d asked at %d for %d: no cycle at that time (cycles %s)" % (i, made, when, cycles[:30])), {}
+        if (i, when) not in evs:
+            return ("wakeup_not_delivered", "id %d asked at %d for %d: cycle exists but the node was not evaluated" % (i, made, when)), {}
+        honoured += 1
+    return None, dict(requests=len(reqs), requests_honoured_in_window=honoured, requests_rejected_by_rule=rejected,
+                      probe_equal_time_requests=len(reqs) - len({w for (_, _, w) in reqs}),
+                      probe_consecutive_step_cycles=sum(1 for a, b in zip(cycles, cycles[1:]) if b == a + 1))
